@@ -12,7 +12,9 @@ package container
 //@   property C05 C17
 //
 //@ func NewParser
-//@   property C05
+//@   property C05 C16
+//@   modifies nothing
+//@   ensures result1 == nil ==> result0 != nil
 //
 //@ func (p *Parser) parse
 //@   property C05 C17
@@ -55,3 +57,11 @@ package container
 //
 //@ func copyBytes
 //@   property C05
+//
+//@ func (p *Parser) Features
+//@   property C05
+//@   requires p != nil
+//
+//@ func (p *Parser) Frames
+//@   property C05
+//@   requires p != nil
